@@ -1997,6 +1997,18 @@ impl GlobalInferenceCtx<'_> {
                                 break 'switch Ty::Unknown.into();
                             }
 
+                            // every possible "true" type of the scrutinee. distincts of sum types are
+                            // switched on like the sum type itself
+                            let variant_tys: Vec<Intern<Ty>> = match scrutinee_ty.absolute_ty() {
+                                Ty::Optional { sub_ty } => vec![*sub_ty, Intern::new(Ty::Nil)],
+                                Ty::ErrorUnion {
+                                    error_ty,
+                                    payload_ty,
+                                } => vec![*error_ty, *payload_ty],
+                                Ty::Enum { variants, .. } => variants.clone(),
+                                _ => unreachable!(),
+                            };
+
                             // resolve all arm types beforehand
                             let mut type_resolution_error = false;
                             for arm in arms {
@@ -2013,7 +2025,7 @@ impl GlobalInferenceCtx<'_> {
 
                                         let ty = self.const_ty(ty)?;
 
-                                        if !scrutinee_ty.has_sum_variant(&ty) {
+                                        if !variant_tys.contains(&ty) {
                                             self.diagnostics.push(TyDiagnostic {
                                                 kind: TyDiagnosticKind::NotAVariantOfSumType {
                                                     ty,
@@ -2038,11 +2050,7 @@ impl GlobalInferenceCtx<'_> {
                                             continue;
                                         }
 
-                                        let Ty::Enum { ref variants, .. } = *scrutinee_ty else {
-                                            unreachable!();
-                                        };
-
-                                        if !variants.iter().any(|v| {
+                                        if !variant_tys.iter().any(|v| {
                                             let Ty::EnumVariant { variant_name, .. } = **v else {
                                                 unreachable!()
                                             };
@@ -2100,19 +2108,8 @@ impl GlobalInferenceCtx<'_> {
                                 }
                             }
 
-                            let mut variants: Vec<VariantToCheck> = match *scrutinee_ty {
-                                Ty::Optional { sub_ty } => {
-                                    vec![sub_ty.into(), Intern::new(Ty::Nil).into()]
-                                }
-                                Ty::ErrorUnion {
-                                    error_ty,
-                                    payload_ty,
-                                } => vec![error_ty.into(), payload_ty.into()],
-                                Ty::Enum { ref variants, .. } => {
-                                    variants.iter().map(|v| (*v).into()).collect_vec()
-                                }
-                                _ => unreachable!(),
-                            };
+                            let mut variants: Vec<VariantToCheck> =
+                                variant_tys.into_iter().map(|v| v.into()).collect_vec();
 
                             let mut first_arm_ty = None;
 
@@ -2253,7 +2250,7 @@ impl GlobalInferenceCtx<'_> {
 
                             let variant_ty = match this_variant {
                                 ArmVariant::Shorthand(name) => {
-                                    let Ty::Enum { variants, .. } = scrutinee_ty.as_ref() else {
+                                    let Ty::Enum { variants, .. } = scrutinee_ty.absolute_ty() else {
                                         // an error will be reported so we don't have to do
                                         // anything here
                                         break 'switch_arg Ty::Unknown.into();
